@@ -58,7 +58,7 @@ pub fn enum_basis() -> Basis {
     b
 }
 
-const TRACK: Opts = Opts { wrap: false, slice: false, obs: false, track: true };
+const TRACK: Opts = Opts { wrap: false, slice: false, obs: false, track: true, clone_iter: false };
 
 fn has_fixed(g: &G) -> bool {
     g.any_node(&|n| n.op == Op::GroupArr || (matches!(n.op, Op::Rep | Op::Sep) && matches!(n.p.flav, Flav::Arr2 | Flav::Arr3)))
